@@ -596,6 +596,22 @@ func (st *runState) report() int {
 			// keys of different units/configs are different cases
 			allKeys[k^hashStr(ur.Unit.Job+"|"+ur.Config)&^1] = true
 		}
+		// every shard enumerates the same index sequence: if the shards disagree on its length, or the
+		// executed cases do not add up, the enumeration was not deterministic (a harness bug)
+		uExh := true
+		for _, r := range ur.Results {
+			if !r.Exhaustive {
+				uExh = false
+			}
+		}
+		for _, r := range ur.Results {
+			if uExh && (r.Cases != uCases) {
+				st.infraErr = append(st.infraErr, fmt.Sprintf("%s[%s]: shards disagree on the number of enumerated cases (%d vs %d)", ur.Unit.Job, ur.Config, r.Cases, uCases))
+			}
+		}
+		if uExh && uEval != uCases {
+			st.infraErr = append(st.infraErr, fmt.Sprintf("%s[%s]: executed cases %d != enumerated cases %d", ur.Unit.Job, ur.Config, uEval, uCases))
+		}
 		evaluated += uEval
 		transitions += uTrans
 		cases += uCases
@@ -605,6 +621,12 @@ func (st *runState) report() int {
 		})
 	}
 	viols = append(viols, st.extraV...)
+	if len(st.infraErr) > 0 {
+		for _, e := range st.infraErr {
+			fmt.Println("HARNESS-ERROR", e)
+		}
+		return 2
+	}
 	// vacuity guard
 	var missing []string
 	for q := range required {
